@@ -17,7 +17,9 @@ RULE = ('A merge history = (composition of a sequence into k contiguous, possibl
         'are observed; len must be exact and every statistic within the section-2 envelope of the exact statistics of the '
         'node\'s sub-multiset. Types: Mean, Variance, Skewness, Kurtosis, Moments4, define_moments! orders 5,6,8,10. '
         'distinct_nontrivial = distinct (type, program) histories with >=2 non-empty chunks whose root state was '
-        'non-trivial (sigma>0, inside guard, envelope<=1e-3).')
+        'non-trivial (sigma>0, inside guard, envelope<=1e-3). Added: lopsided merges (one chunk >1024x, >4096x and >65536x '
+        'larger than the other, both operand orders) and sample sizes of 2^16..2^60 reached by repeated self-merging (the '
+        'multiset is known exactly), incl. merges of two huge operands with different means and adds after the huge count.')
 ASSUME = ['CPython int/Fraction arithmetic is exact; sqrt via isqrt to 2^-200', 'driver faithfully prints accessor bit patterns',
           'envelope constants of DESIGN.md section 2 (calibrated, fixed)']
 
@@ -189,6 +191,125 @@ def shard_sampled(desc):
     return res
 
 
+def shard_lopsided(desc):
+    """Highly unbalanced merges: a chunk of 1-3 observations against a chunk thousands to >65536 times larger, in both
+    operand orders (small.merge(&large) and large.merge(&small)) and with the small chunk first or last in the sequence."""
+    rng = random.Random(desc['seed'])
+    res = Result()
+    variant = desc['variant']
+    cases, plan = [], []
+    memo = {}
+    k = 0
+    for nbig, nsmall, typ in desc['work']:
+        big, _ = gen.sequence(rng, n=nbig, scale_range=(-3, 3), max_offset_exp=3, need_spread=True,
+                              shape=rng.choice(['normal', 'exp_pos', 'arith', 'lognormal']))
+        far = rng.choice([-1.0, 1.0]) * (max(abs(x) for x in big) * rng.choice([3.0, 50.0]) + 1.0)
+        small = [far * (1 + 0.1 * i) for i in range(nsmall)]
+        for small_first in (True, False):
+            xs = (small + big) if small_first else (big + small)
+            oracle = SeqOracle(xs)
+            sizes = (nsmall, nbig) if small_first else (nbig, nsmall)
+            for orient in (0, 1):
+                c, tc = build_history_case('%s-%d' % (desc['name'], k), typ, xs, sizes, (0, 1, orient))
+                c.meta.update({'lopsided': True, 'ratio': nbig // nsmall})
+                k += 1
+                cases.append(c)
+                plan.append((c, tc, oracle, sizes, typ))
+    logs = run_driver(desc['binary'], ''.join(c.text() for c in cases), timeout=3600)
+    for c, tc, oracle, sizes, typ in plan:
+        recs = logs.get(c.id)
+        if recs is None:
+            res.inconclusive.append('case %s missing' % c.id)
+            continue
+        nt = judge_history(typ, c, tc, recs, oracle, sizes, res, variant, memo)
+        res.count('histories')
+        res.count('lopsided_histories')
+        res.count('lopsided_ratio_ge_%d' % (1024 if c.meta['ratio'] < 4096 else (4096 if c.meta['ratio'] < 65536 else 65536)))
+        if nt:
+            res.distinct.add(c.key())
+            res.count('nontrivial_histories')
+    return res
+
+
+def shard_bigcount(desc):
+    """Sample sizes far beyond what adds can reach, produced by repeated self-merging (a.merge(&a.clone()) doubles the
+    count): 2^16 .. 2^60 observations.  The multiset is known exactly (every base value occurs 2^k times), so the exact
+    oracle still applies: len must be exact and every statistic inside the envelope; further merges between two huge
+    operands with different means and further adds after the huge count are checked too."""
+    rng = random.Random(desc['seed'])
+    res = Result()
+    variant = desc['variant']
+    cases, plan = [], []
+    kk = 0
+    for typ, ka, kb in desc['work']:
+        ma, mb = rng.randint(1, 4), rng.randint(1, 3)
+        base_a = [float(rng.randint(-20, 20)) + rng.choice([0.0, 0.5, 0.25]) for _ in range(ma)]
+        base_b = [float(rng.randint(30, 60)) + rng.choice([0.0, 0.5]) for _ in range(mb)]
+        extras = [rng.choice([-1, 1]) * float(rng.randint(100, 400)), float(rng.randint(-5, 5)), 7.25]
+        c = Case('%s-%d' % (desc['name'], kk), typ, meta={'ka': ka, 'kb': kb, 'base_a': base_a, 'base_b': base_b, 'extras': extras})
+        kk += 1
+        c.op('N', 0)
+        c.op('A', 0, base_a)
+        for _ in range(ka):
+            c.op('M', 0, 0)
+        m1 = c.op('O', 0)
+        c.op('N', 1)
+        c.op('A', 1, base_b)
+        for _ in range(kb):
+            c.op('M', 1, 1)
+        orient = rng.randint(0, 1)
+        if orient == 0:
+            c.op('M', 0, 1)
+            r = 0
+        else:
+            c.op('M', 1, 0)
+            r = 1
+        m2 = c.op('O', r)
+        marks = [(m1, base_a, [2 ** ka] * ma), (m2, base_a + base_b, [2 ** ka] * ma + [2 ** kb] * mb)]
+        vals, cnts = base_a + base_b, [2 ** ka] * ma + [2 ** kb] * mb
+        for x in extras:
+            c.op('A', r, [x])
+            vals, cnts = vals + [x], cnts + [1]
+            marks.append((c.op('O', r), list(vals), list(cnts)))
+        cases.append(c)
+        plan.append((c, typ, marks))
+    logs = run_driver(desc['binary'], ''.join(c.text() for c in cases))
+    for c, typ, marks in plan:
+        recs = logs.get(c.id)
+        if recs is None:
+            res.inconclusive.append('case %s missing' % c.id)
+            continue
+        for r in recs:
+            if r.kind in ('p', 'e', 'd'):
+                res.violation(PROP, '%s:%s' % (typ, 'panic' if r.kind == 'p' else 'harness'),
+                              '%s with 2^%d / 2^%d-fold self-merged operands: op %d (%s) -> %s %s' % (
+                                  typ, c.meta['ka'], c.meta['kb'], r.op, c.ops[r.op][:40], r.kind, r.rest), c, variant)
+        by_op = {r.op: r for r in recs if r.kind == 'o'}
+        for opi, vals, cnts in marks:
+            r = by_op.get(opi)
+            if r is None:
+                continue
+            # merge equal values
+            agg = {}
+            for v_, c_ in zip(vals, cnts):
+                agg[v_] = agg.get(v_, 0) + c_
+            vv = sorted(agg)
+            mo = ex.moments_weighted(vv, [agg[v_] for v_ in vv], 10)
+            nt = mc.judge(PROP, typ, None, r.kv, res, c, variant, only=ONLY[typ], mo=mo,
+                          context='(sample size %d = self-merged 2^%d x %d values%s)' % (
+                              mo.n, c.meta['ka'], len(c.meta['base_a']), ' merged with 2^%d x %d values' % (c.meta['kb'], len(c.meta['base_b'])) if opi != marks[0][0] else ''))
+            res.count('bigcount_states')
+            if mo.n > 2 ** 32:
+                res.count('bigcount_states_above_2^32')
+            if mo.n > 2 ** 53:
+                res.count('bigcount_states_above_2^53')
+            if nt:
+                res.count('bigcount_nontrivial_states')
+        res.count('histories')
+        res.distinct.add(c.key())
+    return res
+
+
 def run(tier, seed):
     t0 = time.time()
     total = Result()
@@ -220,10 +341,33 @@ def run(tier, seed):
                       'nseq': max(1, int(nseq * frac) // nsh),
                       'seed': seed * 1000003 + s * 7919 + sum(map(ord, variant))} for s in range(nsh)]
             total.merge(common.run_shards(shard_sampled, descs))
+            # lopsided merges (ratios beyond 1024, 4096 and 65536) and huge sample sizes by self-merging
+            lop = []
+            ratios = [(1100, 1), (4500, 1), (9000, 2), (70000, 1)] if tier == 'quick' else \
+                [(1100, 1), (2100, 2), (4500, 1), (9000, 2), (13000, 3), (70000, 1), (140000, 2), (300000, 1)]
+            for nbig, nsmall in ratios:
+                for typ in (TYPES if nbig <= 9000 or variant == 'release' else ['Mean', 'Kurtosis']):
+                    if nbig >= 70000 and typ in ('M8', 'M10', 'M5') and tier == 'quick':
+                        continue
+                    lop.append((nbig, nsmall, typ))
+            lop.sort(key=lambda w: -w[0])
+            nsh = common.NPROC
+            descs = [{'name': 'l%s%d' % (variant[0], s), 'variant': variant, 'binary': binary, 'work': lop[s::nsh],
+                      'seed': seed * 1000003 + s * 31 + sum(map(ord, variant))} for s in range(nsh) if lop[s::nsh]]
+            total.merge(common.run_shards(shard_lopsided, descs))
+            bc = []
+            rng = random.Random(seed)
+            for typ in TYPES:
+                for ka, kb in [(16, 16), (17, 3), (31, 31), (32, 32), (33, 0), (33, 33), (40, 20), (53, 0), (54, 1), (60, 59)]:
+                    bc.append((typ, ka, kb))
+            descs = [{'name': 'b%s%d' % (variant[0], s), 'variant': variant, 'binary': binary, 'work': bc[s::nsh],
+                      'seed': seed * 1000003 + s * 17 + sum(map(ord, variant))} for s in range(nsh)]
+            total.merge(common.run_shards(shard_bigcount, descs))
     except common.Inconclusive as e:
         total.inconclusive.append(str(e))
     need = {'nontrivial_histories': 1000, 'merge_into_empty': 100, 'merge_of_empty': 100, 'merge_singleton': 100,
-            'merge_unbalanced_4x': 100}
+            'merge_unbalanced_4x': 100, 'lopsided_ratio_ge_1024': 8, 'lopsided_ratio_ge_4096': 8, 'lopsided_ratio_ge_65536': 4,
+            'bigcount_states_above_2^32': 50, 'bigcount_states_above_2^53': 20, 'bigcount_nontrivial_states': 50}
     return common.finish(PROP, tier, seed, total, RULE, t0, ASSUME, min_events=need,
                          extra={'builds': [v for v, _ in variants], 'core_nmax': nmax, 'core_kmax': kmax,
                                 'exhaustive_core': True})
